@@ -87,7 +87,7 @@ def build(jobs=16):
         lock.close()
 
 
-MODEL_FILES = ['Prelude', 'Cov', 'Map', 'Spec', 'Exec', 'Ops', 'Spec2', 'Exec2']
+MODEL_FILES = ['Prelude', 'Cov', 'Map', 'Spec', 'Exec', 'Packed', 'Ops', 'Spec2', 'Exec2']
 
 
 def check_property_file(pid):
